@@ -762,12 +762,14 @@ class Frame(object):
             
         restricted_fs = self.fs[bounding_min:bounding_max]
         if integrate_f_profile:
-            f0 = restricted_fs[0]
             restricted_fchans = len(restricted_fs)
-            restricted_fs = np.linspace(f0,
-                                        f0 + restricted_fchans * self.df,
-                                        restricted_fchans * f_subsamples,
-                                        endpoint=False)
+            # An empty bounding range has no channels to sub-sample
+            if restricted_fchans > 0:
+                f0 = restricted_fs[0]
+                restricted_fs = np.linspace(f0,
+                                            f0 + restricted_fchans * self.df,
+                                            restricted_fchans * f_subsamples,
+                                            endpoint=False)
         ff, _ = np.meshgrid(restricted_fs, self.ts)
 
         # Handle t_profile
